@@ -269,6 +269,17 @@ std::string show(const ScriptVariable& v, int depth = 0)
     }
 }
 
+std::string showSorted(const ScriptVariable& v)
+{
+    const scriptData_u d = v.GetData();
+    std::vector<std::string> items;
+    for (size_t k = 1; k <= d.constArrayValue->size; ++k) items.push_back(show(d.constArrayValue->constArrayValue[k], 1));
+    std::sort(items.begin(), items.end());
+    std::string r = "C{";
+    for (size_t k = 0; k < items.size(); ++k) r += (k ? ";" : "") + items[k];
+    return r + "}";
+}
+
 std::string className(const std::exception& e)
 {
     int st = 0;
@@ -368,7 +379,30 @@ std::string run(const std::vector<std::string>& t)
         else if (op == "cint" && n == 1) { a.CastInteger(); res = "ok " + show(a); }
         else if (op == "cfloat" && n == 1) { a.CastFloat(); res = "ok " + show(a); }
         else if (op == "cstr" && n == 1) { a.CastString(); res = "ok " + show(a); }
-        else if (op == "carr" && n == 1) { a.CastConstArrayValue(); res = "ok " + show(a); }
+        else if (op == "carr" && n == 1) {
+            const bool hashed = a.GetType() == variableType_e::Array;
+            a.CastConstArrayValue();
+            res = "ok " + (hashed ? showSorted(a) : show(a));
+        }
+        else if (op == "targets" && n == 1) {
+            // the listener enumeration of ScriptVM::ExecCmdMethodCommon (ScriptVMOperation.cpp)
+            const bool hashed = a.GetType() == variableType_e::Array;
+            const size_t arraysize = a.arraysize();
+            std::vector<std::string> items;
+            if (arraysize == (size_t)-1) throw ScriptVMErrors::NilListenerCommand(0);
+            if (arraysize > 1) {
+                ScriptVariable array = a;
+                array.CastConstArrayValue();
+                if (a.IsConstArray()) { for (uintptr_t i = 1; i <= arraysize; i++) items.push_back(showListener(array.listenerAt(i))); }
+                else { for (uintptr_t i = array.arraysize(); i > 0; i--) items.push_back(showListener(array.listenerAt(i))); }
+            } else {
+                items.push_back(showListener(a.listenerValue()));
+            }
+            if (hashed) std::sort(items.begin(), items.end());
+            res = "ok C{";
+            for (size_t k = 0; k < items.size(); ++k) res += (k ? ";" : "") + items[k];
+            res += "}";
+        }
         else if (op == "typename" && n == 1) { const char* s = a.GetTypeName(); res = "ok s:" + hex(s, strlen(s)); }
         else if (op == "listenerat" && n == 2 && b.GetType() == variableType_e::Integer) res = "ok " + showListener(a.listenerAt((uintptr_t)b.GetData().long64Value));
         else if (op == "index" && n == 2) { const ScriptVariable& ca = a; res = "ok " + show(ca[b]); }
@@ -404,5 +438,8 @@ int main()
         say(r);
         cleanupLine();
     }
+    // orderly teardown while the allocators still exist (static destruction order is unspecified)
+    for (int k = 1; k <= 4; ++k) { delete g_listeners[k]; g_listeners[k] = nullptr; }
+    g_ctx.reset();
     return 0;
 }
